@@ -55,6 +55,8 @@ fn parse_class(msg: &str) -> u32 {
         5
     } else if msg.starts_with("Syntax Error: Missing operand") {
         6
+    } else if msg.starts_with("Syntax Error: Malformed expression") {
+        7
     } else {
         9
     }
